@@ -8,9 +8,11 @@ import (
 	"crypto/rand"
 	"crypto/sha256"
 	"encoding/hex"
+	"encoding/json"
 	"fmt"
 	"net"
 	"os"
+	"os/exec"
 	"sort"
 	"strings"
 	"sync"
@@ -413,6 +415,7 @@ func c18RunScenario(scn c18Scn, uniq int) *c18ScnResult {
 		hmu.Unlock()
 		or := c18OpResult{}
 		touch()
+		var injectedAt time.Time
 
 		switch op.Kind {
 		case "sub":
@@ -435,6 +438,7 @@ func c18RunScenario(scn c18Scn, uniq int) *c18ScnResult {
 		case "err", "shut":
 			faultSeen = true
 			if cur != nil && cur.ended == "" {
+				injectedAt = time.Now()
 				cur.ctl <- op.Kind
 			} else {
 				or.Ret = "no-live-stream"
@@ -478,6 +482,14 @@ func c18RunScenario(scn c18Scn, uniq int) *c18ScnResult {
 		for _, st := range srv.streams {
 			res.VerifyBad = append(res.VerifyBad, st.bad...)
 			st.bad = nil
+		}
+		if !injectedAt.IsZero() && len(srv.termsAt) > termsBefore {
+			if gap := srv.termsAt[termsBefore].Sub(injectedAt); gap < minB {
+				res.Bad = append(res.Bad, fmt.Sprintf("op %d: reconnect attempted %v after the fault, before the minimum backoff %v", opIdx, gap, minB))
+				if res.BadKey == "" {
+					res.BadKey = "C18/client/backoff-time"
+				}
+			}
 		}
 		// backoff timing: consecutive refused attempts are at least the
 		// doubling wait apart (time.After never fires early)
@@ -686,15 +698,30 @@ func c18RunScenario(scn c18Scn, uniq int) *c18ScnResult {
 			sort.Ints(missing)
 			sort.Ints(dup)
 			if len(missing) > 0 && faultSeen && res.BadKey == "" {
+				// a finding's key is only given when its specific trigger
+				// was observed in this op; anything else is a new violation
+				resubFault, directFault := false, false
+				for bi, b := range behSeen {
+					if b == c18BehOK {
+						continue
+					}
+					if bi == 0 && op.Kind == "sub" {
+						directFault = b == c18BehErrBC || b == c18BehErrAC
+					} else {
+						resubFault = true
+					}
+				}
 				switch {
 				case chaos || !modelled:
 					res.BadKey = "C18/client/concurrent-reconnects"
-				case op.Kind == "sub" && or.NewStreams == 0:
+				case op.Kind == "sub" && or.NewStreams == 0 && directFault && or.Ret == "err":
 					res.BadKey = "C18/client/dead-stream-after-handshake-error"
-				case len(or.HandlerRes) > 0 && or.HandlerRes[len(or.HandlerRes)-1] != "nil":
+				case resubFault && len(or.HandlerRes) > 0 && or.HandlerRes[len(or.HandlerRes)-1] != "nil":
 					res.BadKey = "C18/client/handler-reconnect-error-ignored"
-				default:
+				case resubFault:
 					res.BadKey = "C18/client/resubscribe-abort-drops-accounts"
+				default:
+					res.BadKey = "C18/client/not-resubscribed"
 				}
 				res.Bad = append(res.Bad, fmt.Sprintf("after op %d (%s) the server is reachable and the client idle, but previously subscribed accounts %v are not subscribed on the newest stream (alive=%v)", opIdx, op.Kind, missing, or.Alive))
 			}
@@ -785,8 +812,8 @@ func c18GenScenario(r *Run) c18Scn {
 	return scn
 }
 
-// c18Clients runs n scenarios on parallel workers and reports them in order.
-func c18Clients(r *Run, scns []c18Scn) {
+// c18RunLocal runs scenarios on parallel workers inside this process.
+func c18RunLocal(scns []c18Scn, base int) []*c18ScnResult {
 	results := make([]*c18ScnResult, len(scns))
 	var wg sync.WaitGroup
 	next := int64(-1)
@@ -799,11 +826,121 @@ func c18Clients(r *Run, scns []c18Scn) {
 				if i >= len(scns) {
 					return
 				}
-				results[i] = c18RunScenario(scns[i], i)
+				results[i] = c18RunScenario(scns[i], base+i)
 			}
 		}()
 	}
 	wg.Wait()
+	return results
+}
+
+// c18Child is the entry point of a child process (env C18_CHILD=1): it reads
+// scenarios from stdin, runs them on the real client and prints the results.
+// A panic inside a goroutine of the real client cannot be recovered, so the
+// whole-client scenarios never run in the harness process itself.
+func c18Child() {
+	var in struct {
+		Base int      `json:"base"`
+		Scns []c18Scn `json:"scns"`
+	}
+	if err := json.NewDecoder(os.Stdin).Decode(&in); err != nil {
+		fmt.Fprintln(os.Stderr, "c18 child: bad input:", err)
+		os.Exit(3)
+	}
+	auctioneer.UseLogger(c18Log)
+	res := c18RunLocal(in.Scns, in.Base)
+	b, _ := json.Marshal(res)
+	os.Stdout.Write(b)
+	os.Exit(0)
+}
+
+func c18Spawn(scns []c18Scn, base int) ([]*c18ScnResult, string) {
+	exe, err := os.Executable()
+	if err != nil {
+		return nil, err.Error()
+	}
+	tmp, _ := os.MkdirTemp("", "auct-c18-child")
+	defer os.RemoveAll(tmp)
+	in, _ := json.Marshal(map[string]interface{}{"base": base, "scns": scns})
+	cmd := exec.Command(exe, "-prop", "C18", "-n", "0", "-out", tmp)
+	cmd.Env = append(os.Environ(), "C18_CHILD=1")
+	cmd.Stdin = bytes.NewReader(in)
+	var out, errb bytes.Buffer
+	cmd.Stdout, cmd.Stderr = &out, &errb
+	if err := cmd.Run(); err != nil {
+		msg := errb.String()
+		if i := strings.Index(msg, "panic:"); i >= 0 {
+			msg = msg[i:]
+		}
+		if j := strings.Index(msg, "\n"); j >= 0 {
+			// keep the panic line and the top frame
+			rest := msg[j+1:]
+			top := ""
+			for _, l := range strings.Split(rest, "\n") {
+				if strings.Contains(l, "auctioneer.") {
+					top = " in " + strings.TrimSpace(l)
+					break
+				}
+			}
+			msg = msg[:j] + top
+		}
+		return nil, "child failed (" + err.Error() + "): " + msg
+	}
+	var res []*c18ScnResult
+	if err := json.Unmarshal(out.Bytes(), &res); err != nil || len(res) != len(scns) {
+		return nil, "child output unreadable"
+	}
+	return res, ""
+}
+
+// c18NestedShutdown reports whether the scenario's script can deliver a
+// shutdown notice to a re-subscription handshake (trigger of the
+// concurrent-reconnects finding).
+func c18NestedShutdown(scn c18Scn) bool {
+	for _, op := range scn.Ops {
+		for i, b := range op.Beh {
+			if (b == c18BehShutBC || b == c18BehShutAC) && (i > 0 || op.Kind != "sub") {
+				return true
+			}
+		}
+	}
+	return false
+}
+
+// c18Clients runs the scenarios in child processes (chunks; a crashing chunk
+// is re-run one scenario per child) and reports them in order.
+func c18Clients(r *Run, scns []c18Scn) {
+	results := make([]*c18ScnResult, len(scns))
+	const chunk = 30
+	for lo := 0; lo < len(scns); lo += chunk {
+		hi := lo + chunk
+		if hi > len(scns) {
+			hi = len(scns)
+		}
+		res, fail := c18Spawn(scns[lo:hi], lo)
+		if fail == "" {
+			copy(results[lo:hi], res)
+			continue
+		}
+		r.Count("client/child-crash-chunk")
+		for i := lo; i < hi; i++ {
+			one, fail1 := c18Spawn(scns[i:i+1], i)
+			if fail1 == "" {
+				results[i] = one[0]
+				continue
+			}
+			key := "C18/client/crash"
+			if c18NestedShutdown(scns[i]) {
+				key = "C18/client/concurrent-reconnects"
+			}
+			results[i] = &c18ScnResult{
+				Lines:  [][2]string{{"C18 cl reset", "ok"}},
+				BadKey: key,
+				Bad:    []string{"the real client crashed the process: " + fail1},
+				Trace:  []string{"crashed: " + fail1},
+			}
+		}
+	}
 	for i, res := range results {
 		r.Evaluations++
 		r.Count("client/scenario")
